@@ -1420,20 +1420,103 @@ Proof.
 Qed.
 
 Lemma run_no_ub : forall h st, no_xml h ->
-  ((length (kinds st) + 1) * 2 ^ length h <= 2 ^ 29)%nat -> run st h <> Fatal F_UB.
+  ((N.of_nat (length (kinds st)) + 1) * 2 ^ N.of_nat (length h) <= 2 ^ 29)%N -> run st h <> Fatal F_UB.
 Proof.
-  induction h as [|[env o] h IH]; intros st Hx Hb; simpl; [discriminate|].
+  induction h as [|[env o] h IH]; intros st Hx Hb; simpl run; [discriminate|].
   inversion Hx as [|? ? Ho Hh]; subst. simpl in Ho.
+  assert (Hp : (2 ^ N.of_nat (length ((env, o) :: h)) = 2 * 2 ^ N.of_nat (length h))%N).
+  { simpl length. rewrite Nat2N.inj_succ, N.pow_succ_r'. reflexivity. }
+  rewrite Hp in Hb. clear Hp.
+  assert (Hge : (1 <= 2 ^ N.of_nat (length h))%N).
+  { pose proof (N.pow_nonzero 2 (N.of_nat (length h))). lia. }
   destruct (step env st o) as [st1 rc1|f] eqn:Es.
-  - apply IH; [exact Hh|]. pose proof (step_length _ _ _ _ _ Ho Es) as Hl.
-    simpl length in Hb. rewrite Nat.pow_succ_r' in Hb. nia.
+  - apply IH; [exact Hh|]. pose proof (step_length _ _ _ _ _ Ho Es) as Hl. nia.
   - intros [= ->]. destruct o; simpl in Es; try discriminate; try contradiction.
     unfold pub_register in Es. destruct (negb _); [discriminate|]. destruct cs; [|discriminate].
     destruct (bs_is_empty b); [discriminate|].
     destruct (internal_register st b _ infos OVERWRITE) eqn:E; try discriminate. injection Es as ->.
-    apply internal_register_bounds in E.
-    assert (2 ^ length h >= 1)%nat by (clear; induction (length h); simpl; lia).
-    simpl length in Hb. rewrite Nat.pow_succ_r' in Hb.
-    assert (N.of_nat (length (kinds st)) < 2 ^ 29)%N; [|lia].
-    change (2 ^ 29)%N with (N.of_nat (2 ^ 29)). apply N2Nat.inj_lt. rewrite !Nat2N.id. nia.
+    apply internal_register_bounds in E. nia.
+Qed.
+
+(* ------------------------------------------------------------------ *)
+(* the invariant in plain words *)
+
+Lemma cnt_two ks p : forall i j a b, (i < j)%nat ->
+  nth_error ks i = Some a -> nth_error ks j = Some b ->
+  mem p (k_cpuset a) = true -> mem p (k_cpuset b) = true -> (2 <= cnt ks p)%nat.
+Proof.
+  induction ks as [|k ks IH]; intros i j a b Hij Ha Hb Ma Mb; [destruct i; discriminate|].
+  destruct j as [|j]; [lia|]. simpl in Hb. destruct i as [|i]; simpl in Ha.
+  - injection Ha as ->. simpl. rewrite Ma. apply nth_error_In in Hb.
+    pose proof (cnt_in ks b p Hb Mb). simpl. lia.
+  - simpl. assert (i < j)%nat by lia. specialize (IH i j a b H Ha Hb Ma Mb). lia.
+Qed.
+
+Lemma Inv_partition regs st : Inv regs st ->
+  (forall k, In k (kinds st) -> bs_is_empty (k_cpuset k) = false) /\
+  (forall i j a b, i <> j -> nth_error (kinds st) i = Some a -> nth_error (kinds st) j = Some b ->
+                   bs_intersects (k_cpuset a) (k_cpuset b) = false) /\
+  (forall p, (exists k, In k (kinds st) /\ mem p (k_cpuset k) = true) <-> registered regs p = true).
+Proof.
+  intros [Ik Ip It]. split; [|split].
+  - rewrite Forall_forall in Ik. intros k Hk. apply (ko_ne _ _ (Ik k Hk)).
+  - intros i j a b Hij Ha Hb. apply bs_intersects_false. intros p Ma.
+    destruct (mem p (k_cpuset b)) eqn:Mb; [|reflexivity]. exfalso.
+    assert (2 <= cnt (kinds st) p)%nat.
+    { destruct (Nat.lt_total i j) as [H|[H|H]]; [|contradiction|].
+      - apply (cnt_two _ p i j a b); auto.
+      - apply (cnt_two _ p j i b a); auto. }
+    rewrite Ip in H. destruct (registered regs p); simpl in H; lia.
+  - intros p. split.
+    + intros [k [H1 H2]]. pose proof (cnt_in _ k p H1 H2) as H. rewrite Ip in H.
+      destruct (registered regs p); [reflexivity|simpl in H; lia].
+    + intros H. apply cnt_pos. rewrite Ip, H. simpl. lia.
+Qed.
+
+(* efficiencies along a whole history *)
+Lemma filter_len_le {A} (f : A -> bool) l : (length (filter f l) <= length l)%nat.
+Proof. induction l as [|x l IH]; simpl; [lia|]. destruct (f x); simpl; lia. Qed.
+Lemma filter_all {A} (f : A -> bool) l : length (filter f l) = length l -> filter f l = l.
+Proof.
+  induction l as [|x l IH]; simpl; [reflexivity|]. destruct (f x); simpl; intros H.
+  - f_equal. apply IH. lia.
+  - pose proof (filter_len_le f l). lia.
+Qed.
+
+Definition effs_ok (l : list kind) : Prop := ranked l \/ unranked l.
+
+Lemma effs_ok_map (g : kind -> kind) l : (forall k, k_eff (g k) = k_eff k) -> effs_ok l -> effs_ok (map g l).
+Proof.
+  intros Hg [H|H]; [left|right].
+  - intros i k Hk. rewrite nth_error_map in Hk. destruct (nth_error l i) as [k0|] eqn:E; [|discriminate].
+    injection Hk as <-. rewrite Hg. now apply H.
+  - unfold unranked in *. rewrite Forall_map. eapply Forall_impl; [|exact H]. intros k Hk. now rewrite Hg.
+Qed.
+
+Lemma step_effs env st o st' rc : effs_ok (kinds st) -> step env st o = Fine st' rc -> effs_ok (kinds st').
+Proof.
+  intros He H. destruct o; simpl in H.
+  - unfold pub_register in H. destruct (negb _); [injection H as <- _; exact He|].
+    destruct cs; [|injection H as <- _; exact He]. destruct (bs_is_empty b); [injection H as <- _; exact He|].
+    destruct (internal_register st b _ infos OVERWRITE); [|injection H as <- _; exact He|discriminate].
+    injection H as <- _. apply rank_kinds_effs.
+  - injection H as <- _. unfold restrict_state.
+    destruct (restrict_loop_spec topo (kinds st)) as [S1 [_ S3]].
+    destruct (restrict_loop topo (kinds st)) as [live stales]. simpl in S1, S3.
+    destruct stales; [|apply rank_kinds_effs]. simpl in *.
+    rewrite S1. rewrite filter_all.
+    + apply effs_ok_map; [reflexivity|exact He].
+    + rewrite <- S1, map_length. lia.
+  - injection H as <- _. apply rank_kinds_effs.
+  - injection H as <- _. simpl. apply effs_ok_map; [reflexivity|exact He].
+  - unfold xml_reload in H. destruct (xml_import init_state (kinds st)); [discriminate|].
+    injection H as <- _. apply rank_kinds_effs.
+Qed.
+
+Lemma run_effs : forall h st st' rc, effs_ok (kinds st) -> run st h = Fine st' rc -> effs_ok (kinds st').
+Proof.
+  induction h as [|[env o] h IH]; intros st st' rc He H; simpl in H.
+  - injection H as <- _. exact He.
+  - destruct (step env st o) as [st1 rc1|] eqn:Es; [|discriminate].
+    apply (IH st1 st' rc); [|exact H]. eapply step_effs; eauto.
 Qed.
